@@ -12,6 +12,7 @@ ENGINES = {
     "C48": "e1_cache",
     "C46": "e2_build",
     "C42": "e2_determinism",
+    "C23": "e3_gen",
 }
 
 
